@@ -4,6 +4,7 @@ package server
 
 import (
 	"os"
+	"os/user"
 	"path/filepath"
 	"time"
 
@@ -126,4 +127,94 @@ func zzH_C18_token() {
 		onDisk, _ = os.ReadFile(tokPath)
 	}
 	zzAssert(string(onDisk) == t1, "the token file holds the identity")
+}
+
+// ---- C18/token-datadir: the data directory as the operator spells it ----
+var zzTokDirs map[string]bool
+
+func zzStubUserCurrent() (*user.User, error) { return &user.User{HomeDir: "/home/ht"}, nil }
+func zzStubGetwd() (string, error)           { return "/opt/ht", nil }
+func zzStubSetDataDir(p string)              {}
+func zzTokMkdir(name string, perm os.FileMode) error {
+	zzTokDirs[name] = true
+	return nil
+}
+func zzTokStatDir(name string) (os.FileInfo, error) {
+	if zzTokDirs[name] {
+		return zzTokInfo{}, nil
+	}
+	return zzTokStat(name)
+}
+
+// The data directory is given in any of the spellings the command line accepts (absolute,
+// home-relative with a leading ~, relative to the working directory; existing or not) and
+// the sensor is started three times with the same spelling. The identity of the first start
+// is kept by the later ones and the token file lies in the expanded directory.
+func zzH_C18_datadir() {
+	zzXidCounter = 0
+	home, cwd := "/home/ht", "/opt/ht"
+	var cleanup []string
+	if zzSymbolic() {
+		zzTokFiles = map[string][]byte{}
+		zzTokDirs = map[string]bool{}
+	} else {
+		u, err := user.Current()
+		zzAssume(err == nil)
+		home = u.HomeDir
+		tmp, _ := os.MkdirTemp("", "zzc18d")
+		defer os.RemoveAll(tmp)
+		os.Chdir(tmp)
+		cwd, _ = os.Getwd()
+		defer func() {
+			for _, d := range cleanup {
+				os.RemoveAll(d)
+			}
+		}()
+	}
+	spell, want := "", ""
+	switch zzLen(0, 3) {
+	case 0:
+		spell, want = filepath.Join(cwd, "abs-data"), filepath.Join(cwd, "abs-data")
+	case 1:
+		spell, want = "~/.zzc18-verif-data", filepath.Join(home, ".zzc18-verif-data")
+		cleanup = append(cleanup, want)
+	case 2:
+		spell, want = "rel-data", filepath.Join(cwd, "rel-data")
+	case 3:
+		spell, want = "./rel/../rel-data/", filepath.Join(cwd, "rel-data")
+		if !zzSymbolic() {
+			os.Mkdir(filepath.Join(cwd, "rel"), 0o755)
+		}
+	}
+	if zzBool() { // the directory may exist already
+		if zzSymbolic() {
+			zzTokDirs[want] = true
+		} else {
+			os.MkdirAll(want, 0o755)
+		}
+	}
+	start := func() string {
+		fn, err := WithDataDir(spell)
+		zzAssert(err == nil, "the data directory option is accepted")
+		if err != nil {
+			return ""
+		}
+		h := &Honeytrap{}
+		fn(h)
+		err = WithToken()(h)
+		zzAssert(err == nil, "start-up succeeds")
+		return h.token
+	}
+	t1 := start()
+	t2 := start()
+	t3 := start()
+	zzAssert(zzWellFormedToken(t1, false), "the first start generates a well-formed identity")
+	zzAssert(t2 == t1 && t3 == t1, "the identity is kept on later starts, however the data directory is spelled")
+	var onDisk []byte
+	if zzSymbolic() {
+		onDisk = zzTokFiles[filepath.Join(want, "token")]
+	} else {
+		onDisk, _ = os.ReadFile(filepath.Join(want, "token"))
+	}
+	zzAssert(string(onDisk) == t1, "the token file lies in the expanded data directory and holds the identity")
 }
